@@ -94,7 +94,10 @@ PACKAGES = {"zcsim_p0": {"is_package": True},
             "zcsim_notpkg": {"is_package": False},
             # a package whose module object has no __loader__ (component
             # found on the file system: zcsim/nlpkg/zcsim_pnl)
-            "zcsim_pnl": {"is_package": True, "noloader": True}}
+            "zcsim_pnl": {"is_package": True, "noloader": True},
+            # a PEP 420 namespace package (a directory without __init__.py,
+            # found by Python's own finder: zcsim/nspkg/zcsim_pns)
+            "zcsim_pns": {"is_package": True, "namespace": True}}
 
 
 # ---------------------------------------------------------------------------
